@@ -6,7 +6,7 @@
 /// Check for `assertion`: ""cell value equals what the record stores""
 
 #[test]
-fn kani_concrete_playback_c03_q_cell_rk_int_13792794815347052762() {
+fn kani_concrete_playback_c03_q_cell_rk_int_16014386840054236732() {
     let concrete_vals: Vec<Vec<u8>> = vec![
         // 255
         vec![255],
@@ -32,32 +32,32 @@ fn kani_concrete_playback_c03_q_cell_rk_int_13792794815347052762() {
         vec![255],
         // 255
         vec![255],
-        // 2
-        vec![2],
+        // 1
+        vec![1],
         // 0
         vec![0],
         // 0
         vec![0],
         // 255
         vec![255],
-        // 38
-        vec![38],
+        // 243
+        vec![243],
+        // 255
+        vec![255],
+        // 255
+        vec![255],
+        // 231
+        vec![231],
+        // 1048575
+        vec![255, 255, 15, 0],
+        // 2
+        vec![2],
         // 0
         vec![0],
-        // 0
-        vec![0],
-        // 0
-        vec![0],
-        // 1048572
-        vec![252, 255, 15, 0],
-        // 0
-        vec![0],
-        // 0
-        vec![0],
-        // 1
-        vec![1],
-        // 2ul
-        vec![2, 0, 0, 0, 0, 0, 0, 0],
+        // 2
+        vec![2],
+        // 1ul
+        vec![1, 0, 0, 0, 0, 0, 0, 0],
         // 1ul
         vec![1, 0, 0, 0, 0, 0, 0, 0],
         // 1ul
@@ -73,7 +73,7 @@ fn kani_concrete_playback_c03_q_cell_rk_int_13792794815347052762() {
 /// Check for `cover`: "end"
 
 #[test]
-fn kani_concrete_playback_c03_q_cell_rk_int_9364094613034346982() {
+fn kani_concrete_playback_c03_q_cell_rk_int_3007401518295091971() {
     let concrete_vals: Vec<Vec<u8>> = vec![
         // 255
         vec![255],
@@ -99,38 +99,38 @@ fn kani_concrete_playback_c03_q_cell_rk_int_9364094613034346982() {
         vec![255],
         // 255
         vec![255],
-        // 3
-        vec![3],
+        // 2
+        vec![2],
         // 0
         vec![0],
-        // 0
-        vec![0],
+        // 1
+        vec![1],
         // 255
         vec![255],
         // 2
         vec![2],
-        // 128
-        vec![128],
+        // 0
+        vec![0],
+        // 0
+        vec![0],
+        // 70
+        vec![70],
+        // 1048575
+        vec![255, 255, 15, 0],
         // 2
         vec![2],
         // 0
         vec![0],
-        // 1048572
-        vec![252, 255, 15, 0],
-        // 0
-        vec![0],
         // 2
         vec![2],
-        // 0
-        vec![0],
-        // 0ul
-        vec![0, 0, 0, 0, 0, 0, 0, 0],
-        // 0ul
-        vec![0, 0, 0, 0, 0, 0, 0, 0],
+        // 2ul
+        vec![2, 0, 0, 0, 0, 0, 0, 0],
         // 1ul
         vec![1, 0, 0, 0, 0, 0, 0, 0],
-        // 1
-        vec![1],
+        // 0ul
+        vec![0, 0, 0, 0, 0, 0, 0, 0],
+        // 0
+        vec![0],
     ];
     kani::concrete_playback_run(concrete_vals, c03_q_cell_rk_int);
 }
